@@ -576,6 +576,11 @@ func (t *FnTrans) condIntrinsic(kind string, c *ssa.CallCommon, args []Val, res 
 		return true
 	}
 	mon := t.condMonitor(tname, field)
+	if mon == nil && kind == "wait" && t.ct != nil && t.ct.Opts["only-ghost-asserts"] != "" {
+		// only the ghost assertions of this function are checked: the wait is an arbitrary state change
+		t.havocCall("sync.Cond.Wait (abstracted)", c, res)
+		return true
+	}
 	if mon == nil {
 		if kind == "wait" {
 			t.fail("sync.Cond.Wait on %s.%s: no monitor declares this condition variable", tname, field)
